@@ -37,7 +37,7 @@ def header_flags(h):
 def coq_body(d):
     allow = "[" + "; ".join(str(i) for i in d.allow) + "]"
     s = """From Coq Require Import NArith List Bool.
-From BG Require Import C07.Model C07.Exec.
+From BG Require Import C07.Model C07.Exec C07.TParams C07.TParamsExec.
 From BGgen Require Import C07_Table.
 Import ListNotations. Open Scope N_scope.
 Definition A_vtable := {| a_rule := rule_vtable; a_filter := filter_vtable |}.
@@ -59,6 +59,18 @@ Eval vm_compute in trace_mismatches items edges.
         res = d.res.get(name, {})
         impl = "[" + "; ".join("(%d, %d)" % (k, enc.get(v, 9)) for k, v in sorted(res.items())) + "]"
         s += "Eval vm_compute in (let '(a, b, c) := check items allow %s %s in [a; b; map fst c; map snd c]).\n" % (aname, impl)
+    # the sixth analysis, set-valued: UsedTemplateParameters (C07/TParams.v)
+    if d.ran.get("used_tparams", False):
+        L = lambda xs: "[" + "; ".join(str(x) for x in xs) + "]"
+        selfp = "[" + "; ".join("(%d, %s)" % (i, L(irdump.idlist(x.get("tparams", "-")))) for i, x in sorted(d.items.items())
+                                if x["ikind"] == "type" and x.get("tkind") == "Comp" and irdump.idlist(x.get("tparams", "-"))) + "]"
+        res = d.res.get("used_tparams", {})
+        impl = "[" + "; ".join("(%d, %s)" % (k, L(irdump.idlist(v))) for k, v in sorted(res.items()) if irdump.idlist(v)) + "]"
+        nparams = sum(1 for x in d.items.values() if x["ikind"] == "type" and x.get("tkind") == "TypeParam")
+        fuel = (len(d.items) + sum(len(v) for v in d.edges.values()) * 2 + 10) * (nparams + 2)
+        s += "Eval vm_compute in check_tp items allow filter_used_tparams %s %s %d.\n" % (selfp, impl, fuel)
+    else:
+        s += "Eval vm_compute in [[] ; [] ; [] ; [] ; @nil N].\n"
     return s
 
 
@@ -69,13 +81,40 @@ def analyse_dump(ck, label, d, source):
 
 def judge(ck, label, d, out, source):
     ls = vlib.parse_coq_nlists(out)
-    if len(ls) != 1 + len(AN) or any(x is None for x in ls):
+    if len(ls) != 2 + len(AN) or any(x is None for x in ls):
         raise TieBroken("coq-eval:C07/dump-parse", "%s\n%s" % (label, out[-1500:]))
     tm = [i for i in ls[0] if d.items[i].get("tkind") != "ObjCInterface"]
     if tm:
         ck.count("trace_model_mismatch_items", len(tm))
         ck.broken("correspondence", "Trace vs C07/Model.trace", json.dumps({"header": label, "items": tm[:10], "first": d.items[tm[0]], "real_edges": d.edges.get(tm[0])}, default=str)[:3000])
-    for (name, aname, enc), rep in zip(AN, ls[1:]):
+    # ---- UsedTemplateParameters (set-valued; C07/TParams.v)
+    tp = ls[-1]
+    if len(tp) != 5:
+        raise TieBroken("coq-eval:C07/dump-parse", "%s\n%s" % (label, out[-1500:]))
+    tp_mis, tp_unstable, tp_unsub_r, tp_unsub_m, tp_dom = tp
+    if tp_dom:
+        ck.count("used_tparams_runs_compared")
+        ck.count("used_tparams_domain_nodes", tp_dom[0])
+        if any(irdump.idlist(v) for v in d.res.get("used_tparams", {}).values()):
+            ck.count("used_tparams_runs_with_a_used_parameter")
+    if tp_mis:
+        ck.count("result_mismatch_used_tparams", len(tp_mis))
+        ck.broken("correspondence", "analysis used_tparams vs C07/TParams",
+                  json.dumps({"header": label, "nodes": tp_mis[:10], "items": [d.items[i] for i in tp_mis[:3] if i in d.items],
+                              "impl": {str(i): d.res.get("used_tparams", {}).get(i) for i in tp_mis[:10]}}, default=str)[:3000])
+    if tp_unstable:
+        ck.count("unstable_facts_model_used_tparams", len(tp_unstable))
+        real = {int(m.group(1)) for an, node in d.unstable for m in [re.search(r"ItemId\((\d+)\)", node)] if m and "UsedTemplateParameters" in an}
+        if set(tp_unstable) <= real:
+            i = tp_unstable[0]
+            ck.violation("C07-unstable:used_tparams", "the set of template parameters used by item %d (%s) is not a fixed point: re-applying the rule adds a parameter (model and the real sweep agree)" % (i, d.items.get(i, {}).get("name")),
+                         {"header": label, "source": source, "item": d.items.get(i), "nodes": tp_unstable[:10], "sweep": d.unstable[:10]})
+        else:
+            ck.broken("correspondence", "H2 sweep vs modelled fixed-point test (used_tparams)",
+                      json.dumps({"header": label, "model_unstable": tp_unstable[:10], "impl_sweep": sorted(real)[:10]}))
+    if tp_unsub_r:
+        ck.count("unsubscribed_reads_used_tparams", len(tp_unsub_r))
+    for (name, aname, enc), rep in zip(AN, ls[1:-1]):
         resmis, unstable, unsub_r, unsub_m = rep
         if resmis:
             ck.count("result_mismatch_" + name, len(resmis))
@@ -164,10 +203,19 @@ class Graph:
                 elif x < 0.45 and self.structs:
                     o = r.choice(self.structs)["name"]
                     s["fields"].append(("%s *" % o if r.random() < 0.5 else "S%d *" % r.randrange(self.n), "f%d" % f, ""))
-                elif x < 0.65 and self.structs:
+                elif x < 0.57 and self.structs:
                     o = r.choice(self.structs)["name"]
                     s["fields"].append((o, "f%d" % f, ""))
                     s["needs"].add(o)
+                elif x < 0.65 and self.structs:
+                    # an anonymous (or named-in-place) struct / union member holding an earlier record or scalar by value: the member's
+                    # type is the inner item itself, reached by an InnerType edge AND a Field edge from the same parent (seed C07-4)
+                    o = r.choice(self.structs)["name"]
+                    inner = r.choice([o, o, r.choice(["float", "double", "int"])])
+                    kw = r.choice(["struct", "struct", "union"]) if not any(x["name"] == inner and (x["dtor"] or x["virtual"] or x["bases"]) for x in self.structs) else "struct"
+                    s["fields"].append(("%s { %s af%d; int ag%d; }" % (kw, inner, f, f), r.choice(["", "", "f%d" % f]), ""))
+                    if inner == o:
+                        s["needs"].add(o)
                 elif x < 0.72:
                     s["fields"].append((r.choice(self.SCAL), "f%d" % f, "[%d]" % r.choice([2, 33, 40])))
                 elif self.has_tmpl:
@@ -268,7 +316,9 @@ def run(ck):
                    "hook H1 verif_dump (IR structure, real Trace edges, analysis result maps) and hook H2 (post-convergence sweep) behind cfg(bindgen_verif) + $BINDGEN_VERIF_LOG",
                    "lib/irdump.py (dump parser and Coq renderer)",
                    "modelled, not verified: the constrain rules of has_vtable/sizedness/has_destructor/has_float/has_type_param_in_array are transcribed by hand (tied by the dump comparison); "
-                   "CannotDerive and UsedTemplateParameters are covered only by the H2 sweep and the re-ordering experiment, not by a transcribed rule",
+                   "UsedTemplateParameters is transcribed in C07/TParams.v (constrain rules, resolver, self_template_params, dependency registration; tied by the dump comparison on every run: "
+                   "model least fixed point == implementation's sets, implementation's sets stable under the modelled rule, H2 sweep agrees); where the implementation would panic on a missing entry the model contributes nothing; "
+                   "CannotDerive's rules live in C08's `can`; its work-list run is covered by the H2 sweep and the re-ordering experiment",
                    "libclang building an isomorphic AST for a re-ordered header is assumed (sampled by the re-ordering experiment)"]
     try:
         filt = tr.main(REPO, os.path.join(COQ, "gen", "C07_Table.v"))
@@ -276,7 +326,8 @@ def run(ck):
         raise TieBroken("translator:consider_edge", repr(e))
     ck.obligation("translator:analysis/*.rs->C07_Table.v", True, json.dumps(filt))
     vlib.coq_check_properties(ck, "theories/C07/Properties.v")
-    ok, out = vlib.coq_make(["theories/C07/Exec.vo", "gen/C07_Table.vo"])
+    vlib.coq_check_properties(ck, "theories/C07/TParamsProperties.v")
+    ok, out = vlib.coq_make(["theories/C07/Exec.vo", "theories/C07/TParamsExec.vo", "gen/C07_Table.vo"])
     if not ok:
         raise TieBroken("coq-build:C07/Exec", out)
     bindgen = vlib.build_cli()
